@@ -271,6 +271,9 @@ class Run:
             for r in real:
                 if r["status"] in ("undecided", "violated"):
                     print("  ", r["status"], r["name"], "::", r["detail"][:600])
+        if os.environ.get("VERIF_VERBOSE") == "2":
+            for r in real:
+                print("  ", r["status"], f"{r.get('seconds', 0):.1f}s", r.get("backend", ""), r["name"], "::", str(r.get("sample") or r.get("detail"))[:200])
         return status
 
     def _write_replay(self, r):
